@@ -247,7 +247,7 @@ def run(repo: Repo, ctx, grammar_modules=None, rule_prefix='C01',
                            f'never reads {f}: this form loses the clause '
                            f'when printed', f'{m.rel()}:{c.lineno}')
         ctx.ob(R('R2'), 'per-production-sites', n_sites >= (
-            200 if len(gm) > 3 else 20),
+            200 if len(gm) > 3 else 5),
             f'only {n_sites} grammar construction sites evaluated', '',
             sample=f'{n_sites} productions partially evaluated against '
                    f'their visitor')
